@@ -4,6 +4,7 @@ import (
 	"bytes"
 	"context"
 	"fmt"
+	"google.golang.org/protobuf/types/known/anypb"
 	"io"
 	"math/rand"
 	"net/http"
@@ -184,7 +185,7 @@ func checkC14(e *core.Env) {
 		svc := &Service{}
 		srv := httpgrpc.NewServer(rend.opt...)
 		srv.RegisterService(&ScriptedDesc, svc)
-		for vi, variant := range []string{"ok-coded-error", "shadowing-header"} {
+		for vi, variant := range []string{"ok-coded-error", "shadowing-header", "unencodable-detail"} {
 			for _, code := range []uint32{5, 13, 16} {
 				caseNo++
 				if !e.Selected("special", caseNo) {
@@ -196,6 +197,10 @@ func checkC14(e *core.Env) {
 				if variant == "ok-coded-error" {
 					sc.Ret = Ret{How: "okcoded", Msg: "failed but claims OK"}
 					wantCode = codes.Internal
+				} else if variant == "unencodable-detail" {
+					// a status detail that cannot be put on the wire does not take the code with it
+					sc.Ret.Details = []*anypb.Any{{TypeUrl: "type.test/\xff\xfe", Value: []byte("x")}}
+					sc.Ret.NDet = 1
 				} else {
 					sc.Handler = []Op{{Op: "sethdr", MD: metadata.MD{"x-grpc-status": {"5:relayed from upstream"}, "x-grpc-details": {"AAAA"}}}}
 				}
@@ -210,6 +215,9 @@ func checkC14(e *core.Env) {
 				_, _ = ri, vi
 				if rend.name == "default" && resp.StatusCode < 400 {
 					e.Violate("special/"+variant+"/non-error-http-status", fmt.Sprintf("%s: a failed call was rendered as HTTP %d", cell, resp.StatusCode), cell)
+				}
+				if want, ok := table[wantCode]; ok && rend.name == "default" && variant != "ok-coded-error" && resp.StatusCode != want {
+					e.Violate("special/"+variant+"/http-status", fmt.Sprintf("%s: HTTP status %d, documented %d", cell, resp.StatusCode, want), cell)
 				}
 				ch := &httpgrpc.Channel{BaseURL: mustURL("http://c14.test/"), Transport: rtFunc(func(r *http.Request) (*http.Response, error) {
 					return &http.Response{StatusCode: resp.StatusCode, Status: resp.Status, Header: resp.Header.Clone(), Body: io.NopCloser(bytes.NewReader(body)), Request: r, ProtoMajor: 1, ProtoMinor: 1}, nil
